@@ -180,6 +180,9 @@ pub fn request_range_extension<Node>(
     // UNWRAP: right neighbor never drops until left neighbor is done.
     let mut response = rx.recv().unwrap();
 
+    #[cfg(nomt_verif)]
+    verif::record_response(worker_params.op_range.start, &response);
+
     worker_params.range.high = response.new_high_range;
 
     if let Some((last_key, last_changed_entry)) = response.changed.last_mut() {
@@ -200,5 +203,113 @@ pub fn request_range_extension<Node>(
             // try again with the next right neighbor.
             request_range_extension(worker_params, nodes_tracker);
         }
+    }
+}
+
+/// Verification hook (compiled only with `--cfg nomt_verif`): a recorder of the range-extension messages as the
+/// requester receives them and of every worker's tracker when it returns. Nothing here is used by the store itself.
+#[cfg(nomt_verif)]
+pub mod verif {
+    use super::{ExtendRangeResponse, Key, NodesTracker};
+    use std::sync::Mutex;
+
+    /// One `ChangedNodeEntry`: separator, `deleted`, the page number of `inserted`, `next_separator`.
+    #[derive(Debug, Clone, PartialEq, Eq)]
+    pub struct EntryView {
+        pub key: Key,
+        pub deleted: Option<u32>,
+        pub inserted: Option<u32>,
+        pub next_separator: Option<Key>,
+    }
+
+    #[derive(Debug, Clone, PartialEq, Eq)]
+    pub enum Event {
+        /// An `ExtendRangeResponse` as received by the worker whose `op_range.start` is `requester`;
+        /// `new_right_neighbor`: 0 = `None`, 1 = `Some(None)`, 2 = `Some(Some(_))`.
+        Response {
+            requester: usize,
+            changed: Vec<EntryView>,
+            new_high_range: Option<Key>,
+            new_right_neighbor: u8,
+        },
+        /// The tracker of the worker whose `op_range.start` is `worker` when `run_worker` returns.
+        Final {
+            worker: usize,
+            inner: Vec<EntryView>,
+            extra_freed: Vec<u32>,
+            pending_base: bool,
+            low: Option<Key>,
+            high: Option<Key>,
+        },
+    }
+
+    static LOG: Mutex<Vec<Event>> = Mutex::new(Vec::new());
+
+    fn entries<'a, Node: 'a>(
+        it: impl Iterator<Item = (&'a Key, &'a super::ChangedNodeEntry<Node>)>,
+    ) -> Vec<EntryView> {
+        it.map(|(k, e)| EntryView {
+            key: *k,
+            deleted: e.deleted.map(|pn| pn.0),
+            inserted: e.inserted.as_ref().map(|(_, pn)| pn.0),
+            next_separator: e.next_separator,
+        })
+        .collect()
+    }
+
+    pub(super) fn record_response<Node>(requester: usize, response: &ExtendRangeResponse<Node>) {
+        let ev = Event::Response {
+            requester,
+            changed: entries(response.changed.iter().map(|(k, e)| (k, e))),
+            new_high_range: response.new_high_range,
+            new_right_neighbor: match &response.new_right_neighbor {
+                None => 0,
+                Some(None) => 1,
+                Some(Some(_)) => 2,
+            },
+        };
+        LOG.lock().unwrap().push(ev);
+    }
+
+    pub fn record_final<Node>(params: &super::WorkerParams<Node>, tracker: &NodesTracker<Node>) {
+        let ev = Event::Final {
+            worker: params.op_range.start,
+            low: params.range.low,
+            high: params.range.high,
+            inner: entries(tracker.inner.iter()),
+            extra_freed: tracker.extra_freed.iter().map(|pn| pn.0).collect(),
+            pending_base: tracker.pending_base.is_some(),
+        };
+        LOG.lock().unwrap().push(ev);
+    }
+
+    /// The events recorded since the last call, in the order they happened.
+    pub fn take_log() -> Vec<Event> {
+        std::mem::take(&mut *LOG.lock().unwrap())
+    }
+
+    /// `WorkerParams` as `prepare_workers` returns them.
+    #[derive(Debug, Clone, PartialEq, Eq)]
+    pub struct ParamsView {
+        pub low: Option<Key>,
+        pub high: Option<Key>,
+        pub op_start: usize,
+        pub op_end: usize,
+        pub left_neighbor: bool,
+        pub right_neighbor: bool,
+    }
+
+    pub fn params_view<Node>(workers: &[super::WorkerParams<Node>]) -> Vec<ParamsView> {
+        workers
+            .iter()
+            .map(|w| ParamsView {
+                low: w.range.low,
+                high: w.range.high,
+                op_start: w.op_range.start,
+                op_end: w.op_range.end,
+                left_neighbor: w.left_neighbor.is_some(),
+                right_neighbor: w.right_neighbor.is_some(),
+            })
+            .collect()
     }
 }
